@@ -6,7 +6,7 @@ from props.C15 import units_table
 
 ID = 'C04'
 FLAVORS = ['default']
-RULE = ('one unit "DD <literal>" per scenario read through a typed reader: decimal literals generated from the 488.2 grammar (1..25 mantissa digits, every sign / point / exponent placement, '
+RULE = ('one unit "DD <literal>" per scenario read through a typed reader: decimal literals generated from the 488.2 grammar (1..25 mantissa digits, plus a few of 300..500 digits, every sign / point / exponent placement, '
         'with and without the white space the standard allows around E), read as double and float; #H/#Q/#B literals at and around every width boundary and in-range decimal integers read through all four '
         'integer readers and both floating-point readers; every row of the unit table in upper, lower and mixed case with and without a separating blank, and every special mnemonic in short and long form, '
         'read through SCPI_ParamNumber. Non-trivial: literals with at least two digits; distinct = distinct lines.')
@@ -114,6 +114,14 @@ def streams(tier, rng):
     for lit in ('1 E5', '1E 5', '1.5 e+2', '0.1', '1e23', '9007199254740993', '8.5e-46', '1.7976931348623159e308', '4.9e-324', '2.47e-324'):
         add(lit, 'PD:1', 'dec64', ' ' in lit)
         add(lit, 'PF:1', 'dec32', ' ' in lit)
+    # mantissas of several hundred digits with exponents that bring the value back into range (the exponent clamp of a
+    # naive reader, and of an earlier version of the model, goes wrong here); these need a larger input buffer
+    for lit in ('1' + '0' * 450 + 'e-450', '12345' + '0' * 330 + 'E-332', '0.' + '0' * 400 + '123e400', '9' * 400 + 'e-380',
+                '-' + '7' * 350 + '.5E-349', '1' + '0' * 500, '0.' + '0' * 500 + '1', '1' + '0' * 310 + 'e-2', '4' + '0' * 300 + 'e-626'):
+        for script, kind in (('PD:1', 'dec64'), ('PF:1', 'dec32')):
+            c = gen.scenario(2048, 8, [(1, b'DD', script)], [('I', b'DD ' + lit.encode('latin1') + b'\n')])
+            cases.append(c)
+            info[c] = (lit, kind, False)
     # literals just beside the midpoint of two neighbouring floats / doubles (double rounding shows only here)
     import struct as _st
     from decimal import Decimal, getcontext
